@@ -82,6 +82,10 @@ fn tree_case(s: &mut dyn Src, fl: &Flavour, fixed_sch: Option<&Sch>, tcfg: &Type
     // distinct (node, field) positions touched by the fault-free execution
     let mut positions: Vec<(usize, String, vgql::ast::Ty)> = vec![];
     for t in &base.touches {
+        // SimpleObject members of Z are data, not resolvers: nothing can fail there
+        if fixed_sch.is_some() && !dynamic && vschemas::z::is_plain_data_field(&t.parent_type, &t.field) {
+            continue;
+        }
         if !positions.iter().any(|(n, f, _)| *n == t.node && *f == t.field) {
             positions.push((t.node, t.field.clone(), t.ty.clone()));
         }
